@@ -32,3 +32,6 @@ def build(H, tier, seed):
 
 def standins(tier, seed):
     return K.symcoef_jobs('C04', ['add', 'sub', 'neg', 'reverse', 'involute', 'conjugate'], tier, seed)
+
+
+replay = K.replay_operator
